@@ -226,7 +226,19 @@ def check_pending(prog, r):
         dest = t["dest"]["l"]
         used = _value_used(fv, dest, b)
         guarded = any(g[0] == "call" and ("Nlri" in g[5] or g[1].endswith("::get") or g[1].endswith("contains_key")) for g, l, h in flat_guards(fv, b))
-        if used or guarded:
+        # third accepted form: the old entry is looked up first (a `get` on the same map dominating the insert) and,
+        # when it names a different NLRI, saved by a push into another field of self
+        looked = [bb for bb, tt in fv.calls(re.compile(r".*HashMap::<K, V, S(, A)?>::get$"))
+                  if "unreach" in expr_fields(Renderer(fv, depth=8).operand(tt["args"][0], 8)) and fv.dominates(bb, b)]
+        saved = False
+        for bb, tt in fv.calls(re.compile(r".*Vec::<T(, A)?>::push$")):
+            tgt = Renderer(fv, depth=8).operand(tt["args"][0], 8)
+            if "self" not in expr_vars(tgt) or fv.dominates(b, bb):
+                continue
+            for g, l, h in flat_guards(fv, bb):
+                if g[0] == "call" and re.search(r"PartialEq(<.*>)?(>)?::(eq|ne)$", g[1]) and "Nlri" in g[5] and (g[1].endswith("ne") == (l == {"true"})):
+                    saved = True
+        if used or guarded or (looked and saved):
             r.ok("PendingTx::unreach keeps a displaced pending withdrawal")
         elif not reach_fixed:
             r.note("PendingTx::unreach overwrites by key; subsumed by the reach-side finding (a different NLRI can only be displaced once reach() keeps foreign withdrawals)")
@@ -287,12 +299,28 @@ def check_untruncated(prog, r):
             larg = x[2][-1]
             if larg[0] == "const" and larg[1] == 1:
                 r.ok("%s: list limited to 1 (non-add-path)" % short(rn))
+            elif larg[0] == "call" and _returns_one_or_all(prog, larg):
+                r.ok("%s: list limit is %s, which returns 1 (non-add-path: only the best is ever offered) or usize::MAX (no cut before the filters)" % (short(rn), larg[1].split("::")[-1]))
             else:
                 r.fail(rn, "truncated-before-filters",
                        "process_nlri_change is fed from collect_loc_rib_paths_limited(.., %s): the list is cut to the add-path window before the echo / split-horizon / policy "
                        "filters run, while live updates filter first and cut afterwards — the dump and the incremental state disagree when a filtered path is among the first N" % show(larg, 30),
                        cv.loc(b))
     r.floor("callers of process_nlri_change", n, 3)
+
+
+def _returns_one_or_all(prog, call):
+    """The workspace function called here can only return 1 or usize::MAX (value set from the abstract interpreter)."""
+    from ..absint import analyse, summarise
+    ks = [k for k in prog.ix if prog.name(k) == call[1] and prog.ix[k]["kind"] in ("fn", "method")]
+    if len(ks) != 1:
+        return False
+    try:
+        summ = summarise(analyse(prog, ks[0]))
+    except Exception:
+        return False
+    rng = summ.get("ranges", {}).get("")
+    return bool(rng and rng[2] and set(rng[2]) <= {1, 2 ** 64 - 1})
 
 
 def _iter_source(prog, cv, b):
